@@ -455,6 +455,16 @@ def run(ctx, rng, n_hist=None, length=None, n_scen=None):
     grid = collections.Counter()
     differing = []
     for c, line in zip(cases, outs[1:]):
+        if line.startswith("bad-op extra: not well-formed TTLV"):
+            # the oracle subtrees are bytes the REAL encoder wrote (Key Wrapping Data of a wrapped key, split-key
+            # fields, IV / tag): the model driver's strict parser refuses them - the real response is not well-formed
+            ctx.report("c02:response-subtree-not-wellformed",
+                       "a subtree of the real response (the part of the result the model takes from it: key wrapping "
+                       "data / split-key fields / IV, tag) is not well-formed TTLV: %s"
+                       % json.dumps(json.loads(model_line(c)).get("extra"))[:400],
+                       {"kind": "encode", "case": {k: c.get(k) for k in ("ver", "real") if k in c},
+                        "line": model_line(c)[:4000]})
+            continue
         if not line.startswith("{"):
             raise RuntimeError("encode driver: %s on %s" % (line[:300], model_line(c)[:600]))
         m = json.loads(line)
